@@ -12,6 +12,7 @@ CONSTANTS
   Unresolvable <- MCUnresolvable
   Keyed = ${Keyed}
   Batch = ${Batch}
+  GarbageOn = ${GarbageOn}
 SPECIFICATION SpecE
 VIEW View
 ${EMIT}
